@@ -309,6 +309,22 @@ func C16(c *fw.Ctx) {
 			}
 		}})
 	}
+	// the number 0 after a -0 has been shown and spliced earlier in the run, and the other way round (what was
+	// shown before must not change what a value is shown as now)
+	for _, n := range []float64{0} {
+		n := n
+		sets = append(sets, valueSet{"number 0 after a negative zero was shown", wrap(numberProducers(n, false), 3), func() *model.N { return model.Num(n) }, func() []*model.N {
+			return []*model.N{
+				wrapPre()[0], wrapPre()[1],
+				model.Fun("rn", nil, model.Return(model.Num(n))),
+				model.Fun("idf", []string{"x"}, model.Return(model.Id("x"))),
+				model.Var("nv", model.Num(n)),
+				model.Var("nholder", model.Obj([]string{"k"}, []*model.N{model.Num(n)})),
+				model.Print(model.Bin("*", model.Num(0), model.Un("-", model.Num(1)))),
+				model.Var("warm", model.Bin("+", model.Str("w"), model.Grp(model.Bin("*", model.Num(0), model.Un("-", model.Num(1)))))),
+			}
+		}})
+	}
 	common := func() []*model.N {
 		return []*model.N{
 			model.Var("arr", model.Arr(model.Num(10), model.Num(20), model.Num(30), model.Num(40))),
@@ -371,6 +387,15 @@ func C16(c *fw.Ctx) {
 					continue
 				}
 				c.Outcome(got.stdout + got.diag)
+				if pi == 0 && cx.Name == "print" && strings.HasPrefix(vs.label, "number") {
+					// the one absolute anchor of this differential check: the literal prints as its numeral
+					lines := strings.Split(strings.TrimSuffix(got.stdout, "\n"), "\n")
+					wantNum := model.FormatNum(vs.same().F)
+					if got.status != 0 || lines[len(lines)-1] != wantNum {
+						c.Violate(fw.Replay{Sig: "C16|number|literal-shown-as-another-numeral", What: "a number literal is shown as another numeral than its own (" + vs.label + ")", Mode: "file", Program: src, CLI: true,
+							Expected: wantNum, Observed: fmt.Sprintf("stdout %q status %d", got.stdout, got.status), InStdout: o.Stdout, InStderr: o.Stderr, InStatus: o.Status})
+					}
+				}
 				if pi == 0 {
 					ref, refSrc = got, src
 					continue
@@ -399,7 +424,7 @@ func C16(c *fw.Ctx) {
 				if !ok {
 					continue
 				}
-				if got.stdout != "true\nfalse\n" || got.status != 0 {
+				if !strings.HasSuffix(got.stdout, "true\nfalse\n") || strings.Count(got.stdout, "true")+strings.Count(got.stdout, "false") != 2 || got.status != 0 {
 					c.Violate(fw.Replay{Sig: "C16|equal-across-producers|" + strings.SplitN(vs.label, " ", 2)[0], What: "the same value from two producers must be equal (" + vs.label + ": " + p.Name + " == " + q.Name + ")", Mode: "file", Program: src, Stdin: stdin, CLI: true,
 						Expected: "true / false", Observed: fmt.Sprintf("stdout %q diag %q status %d", got.stdout, got.diag, got.status), InStdout: o.Stdout, InStderr: o.Stderr, InStatus: o.Status})
 				}
